@@ -50,7 +50,10 @@ type item struct {
 type tcase struct {
 	s2s   bool
 	local jid.JID
-	items []item
+	// when set: the address the session was created with; local was assigned
+	// during negotiation (as resource binding does), origin is somebody else's now
+	origin jid.JID
+	items  []item
 	// the application has closed its output stream before the peer's input is
 	// served: replies cannot be written any more, the framing must not change
 	outputClosed bool
@@ -140,6 +143,9 @@ func genProg(t *rapid.T) readProg {
 func genCase(t *rapid.T) tcase {
 	tc := tcase{s2s: rapid.Bool().Draw(t, "s2s")}
 	tc.local = jid.MustParse(rapid.SampledFrom([]string{"test@example.net", "me@example.net/res", "example.org", "a.b@c.example/r1"}).Draw(t, "local"))
+	if rapid.IntRange(0, 2).Draw(t, "addrAssigned") == 0 {
+		tc.origin = jid.MustParse(rapid.SampledFrom([]string{"example.net", "old@example.com", "test@example.org/x"}).Draw(t, "origin"))
+	}
 	ns := stanza.NSClient
 	if tc.s2s {
 		ns = stanza.NSServer
@@ -166,7 +172,11 @@ func genCase(t *rapid.T) tcase {
 				// result/error types with ids could be mistaken for tracked replies only if a
 				// request were pending; none is, so every type is fair game
 				node.Attr = append(node.Attr, xt.A("type", rapid.SampledFrom([]string{"get", "set", "result", "error", "chat", "", "unavailable"}).Draw(t, "sttype")))
-				switch rapid.IntRange(0, 4).Draw(t, "fromkind") {
+				switch rapid.IntRange(0, 5).Draw(t, "fromkind") {
+				case 5:
+					if !tc.origin.Equal(jid.JID{}) {
+						node.Attr = append(node.Attr, xt.A("from", tc.origin.Bare().String()))
+					}
 				case 0:
 					node.Attr = append(node.Attr, xt.A("from", tc.local.Bare().String()))
 				case 1:
@@ -218,7 +228,7 @@ func (tc tcase) input() string {
 
 func (tc tcase) String() string {
 	var sb strings.Builder
-	fmt.Fprintf(&sb, "s2s=%v local=%s output-closed-first=%v input=%q progs=[", tc.s2s, tc.local, tc.outputClosed, tc.input())
+	fmt.Fprintf(&sb, "s2s=%v local=%s (session created as %q) output-closed-first=%v input=%q progs=[", tc.s2s, tc.local, tc.origin.String(), tc.outputClosed, tc.input())
 	for _, it := range tc.items {
 		if it.kind == "elem" {
 			fmt.Fprintf(&sb, "%s:%d:%d ", it.prog.mode, it.prog.k, it.prog.extra)
@@ -317,7 +327,7 @@ func check(t interface {
 		t.Helper()
 		ev.Failf(t, "%s\n%s", tc.String(), fmt.Sprintf(format, args...))
 	}
-	opts := wire.SessionOpts{Local: tc.local}
+	opts := wire.SessionOpts{Local: tc.local, Origin: tc.origin}
 	if tc.s2s {
 		opts.State |= xmpp.S2S
 	}
@@ -520,6 +530,9 @@ func classify(tc tcase) (nontrivial bool, classes []string) {
 	}
 	if tc.outputClosed {
 		classes = append(classes, "output-closed-before-serving")
+	}
+	if !tc.origin.Equal(jid.JID{}) {
+		classes = append(classes, "address-assigned-during-negotiation")
 	}
 	return (elems >= 2 && partial >= 1) || nested >= 1, classes
 }
